@@ -404,7 +404,21 @@ func (l *live) sendActive(c, k int, key string, cmd consts.JT808CommandType, bod
 	l.cmds.Store(am, k)
 	l.rec.log(c, "K", "cmd_call", "k", k, "key", key, "cmd", int(cmd), "body", B(body), "tmo", int(tmo/time.Millisecond))
 	t0 := time.Now()
-	m := l.g.SendActiveMessage(am)
+	// watchdog: a call that has not returned long after its time-out is reported, not waited for
+	resCh := make(chan *service.Message, 1)
+	go func() { resCh <- l.g.SendActiveMessage(am) }()
+	var m *service.Message
+	wait := tmo
+	if wait <= 0 {
+		wait = 3 * time.Second
+	}
+	select {
+	case m = <-resCh:
+	case <-time.After(wait + 4*time.Second):
+		l.rec.log(c, "K", "cmd_stranded", "k", k, "tmo", int(tmo/time.Millisecond))
+		l.rec.log(c, "K", "cmd_ret", "k", k, "kind", "stranded", "respid", 0, "echo", 0, "body", B{}, "ms", int(time.Since(t0).Milliseconds()), "pseq", 0)
+		return cmdResult{Kind: "stranded", Ms: time.Since(t0).Milliseconds()}
+	}
 	ms := time.Since(t0).Milliseconds()
 	r := cmdResult{Ms: ms}
 	if m == nil {
